@@ -5,6 +5,8 @@ import abc
 
 import attr
 
+from cryptodatahub.common.exception import InvalidValue
+
 from cryptoparser.common.parse import ParsableBase, ParserBinary, ComposerBinary
 from cryptoparser.common.exception import NotEnoughData
 
@@ -39,6 +41,9 @@ class SshRecordBase(ParsableBase):
         parser.parse_parsable('packet', cls._get_variant_class())
 
         parser.parse_raw('padding', parser['padding_length'])
+
+        if parser.parsed_length != parser['packet_length'] + 4:
+            raise InvalidValue(parser['packet_length'], cls, 'packet_length')
 
         return cls(packet=parser['packet']), parser.parsed_length
 
